@@ -259,10 +259,13 @@ pub fn run(ctx: &mut Ctx) {
     }
     let tier = ctx.tier;
     let seed = ctx.seed;
-    let n = if ctx.slow_tool { 480 } else { tier.pick(12_000u64, 600_000u64) };
+    let n = if ctx.slow_tool { 480 } else { tier.pick(80_000u64, 4_000_000u64) };
     for idx in 0..n {
         if !ctx.take("parsed", idx) {
             continue;
+        }
+        if ctx.stop("parsed") {
+            break;
         }
         let mut r = ctx.rng("parsed", idx);
         let mut g = Gen::new(&mut r, Cfg { share: 70, max_entries: 3, max_rest: 30, edns: 30, ..Default::default() });
@@ -279,9 +282,12 @@ pub fn run(ctx: &mut Ctx) {
         ctx.sample("parsed", || json!({"bytes": hex(&b)}));
         check_bytes(ctx, "parsed", idx, &b, Some(&p));
     }
-    let ni = if ctx.slow_tool { 160 } else { tier.pick(4_000u64, 200_000u64) };
+    let ni = if ctx.slow_tool { 160 } else { tier.pick(20_000u64, 1_000_000u64) };
     for idx in 0..ni {
         if ctx.take("instance", idx) {
+            if ctx.stop("instance") {
+                break;
+            }
             instance_pairs(ctx, idx);
         }
     }
